@@ -213,7 +213,7 @@ def native_value(rng, d):
 
 def units(tier, seed):
     us = [('pool',), ('collide',)]
-    for i in range(24 if tier == 'quick' else 128):
+    for i in range(24 if tier == 'quick' else 1280):
         us.append(('random', i))
     return us
 
